@@ -52,9 +52,10 @@ def verify(targets=None, props=None, tier='quick', timeout=None, verbose=False, 
     from .cexpr import NAMED_TUPLES
     reports = []
     ex = Executor(reg, program)
+    called = set()
     for tgt in sorted(reg.contracts):
         c = reg.contracts[tgt]
-        if c.trusted:
+        if c.trusted or getattr(c, 'inline', False):
             continue
         if targets and not any(tgt == t or tgt.startswith(t) for t in targets):
             continue
@@ -77,6 +78,7 @@ def verify(targets=None, props=None, tier='quick', timeout=None, verbose=False, 
                 rep.location = fi.location
             ex2 = Executor(reg, program)
             ex2.trusted_used = ex.trusted_used
+            ex2.called_contracts = called
             ex2.assumptions_used = ex.assumptions_used
             obs = ex2.verify(fi, c)
             if ob_filter is not None:
@@ -120,6 +122,9 @@ def verify(targets=None, props=None, tier='quick', timeout=None, verbose=False, 
             import traceback
             rep.status = 'crash'
             rep.reason = traceback.format_exc()
+    # vacuity guard for the contracts that are assumed or used at call sites: requires + frame + ensures (and each raises
+    # clause) must be satisfiable together -- a contradictory callee contract would make everything after the call provable
+    cover_reports = contract_covers(reg, program, called, jobs)
     # solve
     tasks = []
     tmo = timeout or (10 if tier == 'quick' else 40)
@@ -127,7 +132,7 @@ def verify(targets=None, props=None, tier='quick', timeout=None, verbose=False, 
         for oi, ob in enumerate(rep.obligations):
             if only_names and not any(s in ob.name for s in only_names):
                 continue
-            text = smt.script(list(ob.pc) + [smt.Not(ob.goal)], hide=getattr(ob, 'hide', ()))
+            text = smt.script(list(dict.fromkeys(ob.pc)) + [smt.Not(ob.goal)], hide=getattr(ob, 'hide', ()))
             tasks.append(((ri, oi), text))
         if rep.status == 'ok' and getattr(rep, 'entry_pc', None) is not None:
             tasks.append(((ri, 'cover'), smt.script(list(rep.entry_pc))))
@@ -141,7 +146,7 @@ def verify(targets=None, props=None, tier='quick', timeout=None, verbose=False, 
         ob = reports[ri].obligations[oi]
         if ob.goal.op == 'and' and len(ob.goal.args) > 1:
             for k, g in enumerate(ob.goal.args):
-                retry.append(((ri, oi, k), smt.script(list(ob.pc) + [smt.Not(g)], hide=getattr(ob, 'hide', ()))))
+                retry.append(((ri, oi, k), smt.script(list(dict.fromkeys(ob.pc)) + [smt.Not(g)], hide=getattr(ob, 'hide', ()))))
     if retry:
         res2 = solve.solve_many(retry, jobs=jobs, timeout_s=tmo, thorough=(tier == 'thorough'))
         byob = {}
@@ -158,7 +163,84 @@ def verify(targets=None, props=None, tier='quick', timeout=None, verbose=False, 
             reports[ri].cover = r
         else:
             reports[ri].results[oi] = r
+    ex.contract_covers = cover_reports
     return reg, program, ex, reports, texts, time.time() - t0
+
+
+COVER_CACHE = {}
+
+
+def contract_covers(reg, program, only, jobs=None):
+    """[(contract target, outcome index, 'sat'|'unsat'|'unknown'|'error: ..')] for every contract that can be used at a call site"""
+    import ast as _ast
+    from . import calls
+    from .symexec import State, PathEnd, PyExc
+    out = []
+    pending = []
+    for tgt in sorted(reg.contracts):
+        c = reg.contracts[tgt]
+        if getattr(c, 'inline', False) or tgt.startswith('gen:') or (only is not None and tgt not in only):
+            continue
+        for which in range(0, 1 + len(c.raises)):
+            key = (tgt, which)
+            if key in COVER_CACHE:
+                out.append((tgt, which, COVER_CACHE[key]))
+                continue
+            try:
+                ex = Executor(reg, program)
+                ex.func = FuncInfo('cover.' + tgt, _ast.parse('def f(): pass').body[0], None, None)
+                ex.contract = None
+                ex.cur_module = tgt.split('.')[0] if tgt.split('.')[0] in program.modules else None
+                ex.script = [which] if len(c.raises) else []
+                ex.widths = []
+                ex.pos = 0
+                ex.obligations = []
+                ex.site_ord = {}
+                ex.loop_ord = {}
+                ex.path_no = 1
+
+                class _C(object):
+                    params = c.params
+                    free = c.free
+                    target = c.target
+                fi = FuncInfo(tgt, _ast.parse('def f(): pass').body[0], ex.cur_module, None)
+                st = State()
+                ex.alloc_term(st)
+                from .smt import Gt, IntC
+                st.pc.append(Gt(st.heap['$alloc'], IntC(0)))
+                bound = {}
+                for name, pt in list(c.params):
+                    if pt is None or pt.kind in ('fnref', 'clsref'):
+                        raise OutOfSubset('parameter kind')
+                    if pt.kind == 'opaque':
+                        v = ptypes.SV(ptypes.PT('opaque'), py=name)
+                    else:
+                        v = ptypes.SV(pt, smt.Var('p!' + name, ptypes.sort_of(pt)))
+                        ex.assume_wf(st, v)
+                    bound[name] = v
+                if c.free:
+                    raise OutOfSubset('closure contract')
+                ex.entry = st.copy()
+                node = _ast.parse('f()').body[0].value
+                try:
+                    calls.call_contract(ex, c, bound, st, node)
+                except PyExc:
+                    pass
+                text = smt.script(list(dict.fromkeys(st.pc)), hide=tuple(smt.FUNDEFS))
+                pending.append((key, text))
+                continue
+            except (OutOfSubset, ContractMismatch) as e:
+                res = 'skipped: %s' % str(e)[:80]
+            except Exception as e:
+                res = 'skipped: %s %s' % (type(e).__name__, str(e)[:80])
+            COVER_CACHE[key] = res
+            out.append((tgt, which, res))
+    if pending:
+        rs = solve.solve_many(pending, jobs=jobs, timeout_s=3)
+        for key, text in pending:
+            COVER_CACHE[key] = rs[key]['result']
+            out.append((key[0], key[1], rs[key]['result']))
+    return out
 
 
 def summarize(reports, verbose=False, out=sys.stdout):
